@@ -370,7 +370,8 @@ def run_case(case):
         import re as _re
 
         r_recv = renders(recv)
-        for (d1, a1), (d2, a2) in zip(r_recv, r_got):
+        for x1, x2 in zip(r_recv, r_got):
+            a1, a2 = x1[1], x2[1]
             k1 = _re.findall(r"\b(SELECT|INSERT|UPDATE|DELETE|WITH|FROM|WHERE|JOIN|SET|VALUES|GROUP|HAVING|ORDER|RETURNING|ON)\b", a1)
             k2 = _re.findall(r"\b(SELECT|INSERT|UPDATE|DELETE|WITH|FROM|WHERE|JOIN|SET|VALUES|GROUP|HAVING|ORDER|RETURNING|ON)\b", a2)
             if k1 != k2:
